@@ -9,6 +9,9 @@
 (* optional guess is supplied.  The harness performs the call, then        *)
 (* compares every TT argument bitwise (cores, N, M, R, version counters)   *)
 (* with its snapshot and re-uses every argument (w + w must still be 2 w). *)
+(* Independence: when the call returned a TT object, set_core on that      *)
+(* result must change no argument, and set_core on an argument must not    *)
+(* change the result obtained earlier (no shared core list).               *)
 (***************************************************************************)
 EXTENDS Integers, Sequences, FiniteSets, TLC
 
